@@ -213,7 +213,15 @@ func (c *CTCP) Set(cmd string, handler func(client *Client, ctcp CTCPEvent)) {
 // for more information.
 func (c *CTCP) SetBg(cmd string, handler func(client *Client, ctcp CTCPEvent)) {
 	c.Set(cmd, func(client *Client, ctcp CTCPEvent) {
-		go handler(client, ctcp)
+		go func() {
+			// The handler runs in a goroutine of its own, out of reach of the
+			// recover installed by call: catch its panics here.
+			if client.Config.RecoverFunc != nil && ctcp.Origin != nil {
+				defer recoverHandlerPanic(client, ctcp.Origin, "ctcp-"+strings.ToLower(ctcp.Command), 3)
+			}
+
+			handler(client, ctcp)
+		}()
 	})
 }
 
